@@ -278,3 +278,19 @@ pub fn effsyn_rows(rows: Vec<RowKind>) -> Sink {
     }
     sink
 }
+
+/// a year-like constant range that is one short of 1900..=2100 (C07-R6 control)
+pub fn year_range_short(y: i32) -> bool {
+    let allowed = 1900..2100;
+    range_holds(allowed, y)
+}
+
+fn range_holds(r: std::ops::Range<i32>, y: i32) -> bool {
+    r.start <= y && y < r.end
+}
+
+/// dimension control (C11-R5): `remaining - lot_cost` mixes shares and money, `remaining - consumed` does not
+pub fn dims_mixed(remaining: rust_decimal::Decimal, consumed: rust_decimal::Decimal, lot_cost: rust_decimal::Decimal) -> rust_decimal::Decimal {
+    let left = remaining - consumed;
+    left - lot_cost
+}
